@@ -13,6 +13,9 @@ import (
 	"github.com/bokysan/socketace/v2/internal/zzverif/vlib"
 )
 
+// (This file sorts first so that the test runs before the others of the package: the keep-alive of the datagram
+// sessions that TestManySessions leaves behind would otherwise lower the footprint while this test measures it.)
+//
 // TestTargetThatAnswersLate: six logical connections ask for a channel whose target does not answer the connection
 // attempt (neither accepted nor refused); each application waits until its connection is ended for it, 14 s at most,
 // and closes. After 12 s the target starts answering, so the connection attempts still pending on the server complete
